@@ -40,7 +40,7 @@ def emittable_kinds():
     kf = known_findings()
     comb = [k for k in kinds_with(seq=False, include=('extra',)) if 'rot' not in k.tags]
     seqk = [k for k in kinds_with(seq=True, include=('extra',)) if 'simonly' not in k.tags]
-    if kf.excluded('asyncmem-write-through'):
+    if kf.excluded('asyncmem-verilog-body'):
         comb = [k for k in comb if k.name != 'AsynchronousMemory']
     if kf.excluded('dualport-verilog-body'):
         seqk = [k for k in seqk if k.name != 'DualPortSynchronousMemory']
